@@ -60,7 +60,12 @@ def err_fn_specs():
 
 
 def retry_policies(max_attempts=4):
+    scripted = st.builds(
+        lambda sh, sl: {"type": "script", "should": sh + [False], "sleep": sl},
+        st.lists(st.sampled_from([True, True, False, "raise"]), min_size=1, max_size=3),
+        st.lists(st.sampled_from([0, 0.25, 0.5, "raise"]), min_size=1, max_size=3))
     return st.one_of(
+        scripted,
         st.builds(
             lambda m, s, e, ms, b: {"type": "exc", "max_attempts": m, "sleep": s, "exponent": e,
                                     "max_sleep": ms, "base": b},
